@@ -111,7 +111,7 @@ fn exec_ops(ctx: &mut Ctx, ev: &Ev) {
     let fa = xor_sets(n, &la);
     let fb = xor_sets(n, &lb);
     ctx.check("esop-value-parity", va == fa && nv == n && nc == la.len(), ev, "value", || "Esop::value is not the parity of its cubes".into());
-    ctx.check("esop-to-lut", Model::from_blocks(n, lut_a.blocks()).bits == fa && lut_a.num_vars() == n, ev, "lut", || "Lut::from(&esop) is not the tabulated XOR".into());
+    ctx.check("esop-to-lut", Model::from_blocks(n, lut_a.blocks()).bits == fa && lut_a.num_vars() == n && vmon::obs::well_formed(n, lut_a.blocks()).is_ok(), ev, "lut", || "Lut::from(&esop) is not the tabulated XOR".into());
     ctx.check("esop-is-zero-sound", !isz || fa.iter().all(|b| !*b), ev, "is_zero", || "is_zero on a non-zero Esop".into());
     ctx.check("esop-is-one-sound", !iso || fa.iter().all(|b| *b), ev, "is_one", || "is_one on a non-one Esop".into());
     ctx.check("esop-xor-semantic", self_vals.iter().all(|b| !*b), ev, "aliased &a ^ &a", || "&a ^ &a (one object on both sides) is not the constant zero over the same variables (value, num_vars or Lut::from)".into());
